@@ -27,14 +27,14 @@ theorem gReturn_toRun' (s : Sys) (job : Job) (ret : Ret) : (gReturn s job ret).t
                   · split <;> rfl
                   · rfl
 
-theorem dtick_sj {s s' : Sys} {perm : List Name} (hy : Hyp inp J G s) (h : SJ inp J G s)
+theorem dtick_sj [NoFailDeliver inp] {s s' : Sys} {perm : List Name} (hy : Hyp inp J G s) (h : SJ inp J G s)
     (hs : dtick inp s perm = some s') : SJ inp J G s' := by
   refine ⟨dtick_allJ hy.g hy.c hy.s h.tr h.all hs, ?_⟩
   rcases dtick_toRun hs with e | ⟨t, e, _⟩
   · rw [e]; exact h.tr
   · intro x hx; exact h.tr x (by rw [e]; simp [hx])
 
-theorem send_sj {s s0 : Sys} {node : Option Name} {perm : List Name} (hy : Hyp inp J G s) (h : SJ inp J G s)
+theorem send_sj [NoFailDeliver inp] {s s0 : Sys} {node : Option Name} {perm : List Name} (hy : Hyp inp J G s) (h : SJ inp J G s)
     (hs : send inp s node perm = some s0) (r : RPC) : SJ inp J G { s0 with rpc := r } :=
   ⟨allJ_congr (send_allJ hy.g h.all hs) rfl, by
     intro t ht; exact h.tr t (by rw [← send_toRun hs]; exact ht)⟩
@@ -52,7 +52,7 @@ theorem result_sj {s x : Sys} {n : Name} {nd : Node} (h : SJ inp J G s) (hn : s.
     (processResult_nodes inp x n nd)) rfl, by
     intro t ht; exact hx.tr t (by rw [← processResult_toRun inp x n nd]; exact ht)⟩
 
-theorem serialStep_sj {s s' : Sys} {perm : List Name} (hy : Hyp inp J G s) (h : SJ inp J G s)
+theorem serialStep_sj [NoFailDeliver inp] {s s' : Sys} {perm : List Name} (hy : Hyp inp J G s) (h : SJ inp J G s)
     (hs : serialStep inp s perm = some s') : SJ inp J G s' := by
   unfold serialStep at hs
   cases hrp : s.rpc with
@@ -108,7 +108,7 @@ theorem serialStep_sj {s s' : Sys} {perm : List Name} (hy : Hyp inp J G s) (h : 
   | pJoin => simp only [hrp] at hs; cases hs
   | halted => simp only [hrp] at hs; cases hs
 
-theorem mainStep_sj {s s' : Sys} {perm : List Name} (hy : Hyp inp J G s) (h : SJ inp J G s)
+theorem mainStep_sj [NoFailDeliver inp] {s s' : Sys} {perm : List Name} (hy : Hyp inp J G s) (h : SJ inp J G s)
     (hs : mainStep inp s perm = some s') : SJ inp J G s' := by
   unfold mainStep at hs
   cases hrp : s.rpc with
@@ -173,7 +173,7 @@ theorem mainStep_sj {s s' : Sys} {perm : List Name} (hy : Hyp inp J G s) (h : SJ
   | sExec a => simp only [hrp] at hs; cases hs
   | halted => simp only [hrp] at hs; cases hs
 
-theorem pstep_sj {s s' : Sys} {c : Choice} (hy : Hyp inp J G s) (h : SJ inp J G s)
+theorem pstep_sj [NoFailDeliver inp] {s s' : Sys} {c : Choice} (hy : Hyp inp J G s) (h : SJ inp J G s)
     (hs : pstep inp s c = some s') : SJ inp J G s' := by
   cases c with
   | main perm => exact mainStep_sj hy h hs
